@@ -10,5 +10,14 @@ cd coq
 (echo "-Q . IQ"; ls gen/*.v *.v props/*.v | sort) > _CoqProject
 coq_makefile -f _CoqProject -o Makefile >/dev/null
 make clean >/dev/null 2>&1 || true
-timeout 3000 make -j16 > /tmp/iqv_setup_make.log 2>&1 || { tail -40 /tmp/iqv_setup_make.log; exit 1; }
-echo "setup ok: $(ls *.vo props/*.vo gen/*.vo | wc -l) .vo files"
+LOG=$(mktemp)
+timeout 3000 make -k -j16 > "$LOG" 2>&1 || true
+# every property claimed in MANIFEST.json must have its theorem file compiled; anything else that failed is reported, not fatal
+missing=""
+for p in $(/venv/bin/python -c "import json; print(' '.join(c['property_id'] for c in json.load(open('../MANIFEST.json'))['checks']))"); do
+  [ -f "props/$p.vo" ] || missing="$missing $p"
+done
+if [ -n "$missing" ]; then echo "setup FAILED: props not built:$missing" >&2; grep -B2 -A12 'Error' "$LOG" | head -60 >&2; rm -f "$LOG"; exit 1; fi
+nfail=$(grep -c '^make.*Error' "$LOG" || true)
+echo "setup ok: $(ls *.vo props/*.vo gen/*.vo | wc -l) .vo files; make errors outside the claimed properties: $nfail"
+rm -f "$LOG"
